@@ -504,7 +504,9 @@ def run_check(tier, seed):
             v.tie_failure("correspondence run: " + err)
         listed = {f["id"] for f in vplib.findings_for(PID)}
         for i, line in enumerate(impl or []):
-            case, res, oracle = line.split("\t")
+            cols = line.split("\t")
+            case, res, oracle = cols[0], cols[1], cols[2] if len(cols) > 2 else "-"
+            after = split_fields(cols[3]) if len(cols) > 3 else {}
             _, clause, exp = cases[i]
             kind = case[0]
             stats["cases"] += 1
@@ -523,6 +525,12 @@ def run_check(tier, seed):
             cls = impl_f["D"].split(":")[0] if ":" in impl_f["D"] else impl_f["D"]
             stats["impl_outcomes"][kind + "/" + cls] = stats["impl_outcomes"].get(kind + "/" + cls, 0) + 1
             fails, skipped = judge(case, clause, exp, impl_f, oracle)
+            # the same literal written after other literals (and a blank line) must denote the same value
+            if exp is not None:
+                for f, pf in (("S", "PS"), ("B", "PB")):
+                    got = after.get(pf, "same")
+                    if got != "same" and not impl_f.get(f, "").startswith(NOT_LITERAL) and f not in [x[0] for x in fails]:
+                        fails.append((pf, got, impl_f.get(f, "?") + " (its value when it is the whole program)"))
             stats["not_a_literal_skipped"] += skipped
             if exp is not None and not fails:
                 distinct.add(case.split(" ")[1])
@@ -589,7 +597,7 @@ def replay(obj):
     cleanup()
     rc = 0
     for x, line in zip(viol, impl or []):
-        case, res, oracle = line.split("\t")
+        case, res, oracle = (line.split("\t") + ["-", "-"])[:3]
         f = x.get("observed_at", "D")
         got = split_fields(res).get(f)
         want = x.get("expected", "").split(" (")[0]
